@@ -21,6 +21,17 @@
 #define CAPACITY QCAP
 #endif
 #endif
+#ifdef FIXED_SEQ
+// deterministic instance: push FIXED_SEQ values, pop them all, strict FIFO expected (configuration check)
+extern "C" void vp_thread1() {
+  Q* q = new Q();
+  for (int i = 1; i <= FIXED_SEQ; ++i) { bool ok = q->push(i % 15 + 1); vp_assert(ok, 200); }
+  for (int i = 1; i <= FIXED_SEQ; ++i) { int v = -1; bool ok = q->pop(v); vp_assert(ok, 201); vp_assert(v == i % 15 + 1, 202); }
+  int v = -1; vp_assert(!q->pop(v), 203);
+  vp_cover(1);
+  delete q;
+}
+#else
 extern "C" void vp_thread1() {
   Q* q = new Q();
   for (int i = 0; i < ROT; ++i) {
@@ -80,3 +91,4 @@ extern "C" void vp_thread1() {
   vp_assert(!q->pop(v), 122);
   delete q;
 }
+#endif
